@@ -45,6 +45,11 @@ CLAIMED = {
    text='For every cast function, table, number and position of bad values: drop = filter+cast, ignore/clear keep all rows, custom handlers by truthiness, raise aborts at the first bad row with its absolute index, emitted values are casts; tied to the code by the validate correspondence with the real cast_value outcomes and re-checked directly on real set_type/validate runs.',
    note='Field.cast_value is a parameter (its outcomes are supplied per case); field names of the schema assumed distinct; field-name patterns with a top-level alternation are not generated (their anchoring is not pinned by the property)',
    ref='6/C14'),
+ 'C18': dict(
+   technique='Lean 4 proof (transition system of producer / N workers / fetcher / collector: termination measure, multiset conservation, 10-clause inductive invariant, deadlock freedom, exactly-once at termination; all N>=1, all inputs, all schedules) + sched correspondence under a controlled scheduler + real multi-process runs',
+   text='C18_terminates, C18_conservation, C18_no_deadlock and C18_exactly_once are proved by induction over reachable states of an executable nondeterministic transition system, for every number of workers, input and interleaving. The real producer/work/fetcher/fork bodies are run with scheduler-aware stand-ins for the queue/thread/process names and driven by the same schedule string as the model: effective-step flags and delivered rows must agree step by step; delivered multiset and termination are also checked on the real functions and on uncontrolled multi-process runs.',
+   note='mp.Queue FIFO per producing process, atomic queue operations; single-writer queues are represented as rows++markers (program order of their one writer); threads substitute processes in the controlled runs',
+   ref='6/C18'),
  'C19': dict(
    technique='Lean 4 proof (descriptor effects come after all data-file effects; any prefix with a descriptor present has all data files complete) + fs-trace correspondence + real SIGKILL before every file operation of real dumps',
    text='C19_descriptor_last / C19_prefix_safe for any number of resources and chunks; the model effect order is compared with the intercepted operations of the real dump_to_path, and the real child is killed before every operation in the output directory (copies forced into 48-byte chunks): whenever datapackage.json parses, every listed file must exist with recorded size and md5.',
